@@ -5,6 +5,7 @@ R-FIELDMAP-W and R-COUNTERS-W (C01, C02).  All of them are evaluated with the af
 every success path of both twins.
 """
 from rulebase import *
+from absint import narrowing_casts as absint_narrowing
 
 HEADER_ADT = "header::Header"
 SECTION_FIELDS = [
@@ -157,6 +158,9 @@ def r_layout_w(ctx):
                     continue
                 off_a = affine(off_t)
                 len_a = affine(len_t)
+                for nm, t_ in ((off_f, off_t), (len_f, len_t)):
+                    nc = absint_narrowing(t_)
+                    obs.append(Ob("R-LAYOUT-W", fn, "%s: not truncated" % nm, not nc, "header field %s passes through a narrowing cast (%s): positions beyond its width wrap" % (nm, ", ".join("as %s" % c[1] for c in nc)) if nc else "no narrowing cast on the way to the 64-bit field", loc))
                 # R-REL
                 for nm, a in ((off_f, off_a), (len_f, len_a)):
                     pfree = w.P not in a[1]
@@ -196,6 +200,82 @@ def r_layout_w(ctx):
                 obs.append(Ob("R-LAYOUT-W", fn, "no seek between section writes", not bad,
                               "seek effects on `%s` between the first section write and the header seek: %d" % (w.Sname, len(bad)), loc))
     return obs
+
+
+def r_section_content(ctx):
+    """R-SECTION-CONTENT: what each section write carries.  root = the directory writer called with the layout result's directory and the archive's
+    internal compression; metadata = one write of serde_json(self.meta_data) through a compressor built from the archive's internal compression over
+    the output stream, then finished; leaf = exactly the bytes the directory writer returned; data = the layout result's tile data."""
+    obs = []
+    wp = writer_paths(ctx)
+    if not wp:
+        return no_anchor("R-SECTION-CONTENT", "archive writer")
+    factories = set(f["path"] for f in ctx.codec_factories())
+    me = V("param:self")
+    for f, fa, oks in wp:
+        fn = f["path"]
+        if fa is None or not oks:
+            obs.append(Ob("R-SECTION-CONTENT", fn, "paths", False, "no analysable success path", rel(f["loc"])))
+            continue
+        for p in oks:
+            w = WriterPath(ctx, fa, p)
+            if not w.ok:
+                obs.append(Ob("R-SECTION-CONTENT", fn, "model", False, w.why, rel(f["loc"])))
+                continue
+            loc = w.hdr.loc()
+            fin = getattr(w, "finish_result", None)
+            ok_fin = fin is not None and fin[0] == "call" and fin[2] and _strip(fin[2][0]) == ("f", me, "tile_manager")
+            obs.append(Ob("R-SECTION-CONTENT", fn, "data: the tile data of this archive's layout pass", bool(w.sections["data"]) and ok_fin,
+                          "data section writes %s" % (tstr(("f", fin, "data"))[:90] if fin is not None else "nothing recognisable"), w.sections["data"][0][0].loc() if w.sections["data"] else loc))
+            # root
+            for (e, kinds, b, a) in w.sections["root"][:1]:
+                args = [_strip(x) for x in e.d["args"]]
+                ok_dir = fin is not None and any(_base(x) == ("f", fin, "directory") for x in args)
+                ok_comp = ("f", me, "internal_compression") in args
+                obs.append(Ob("R-SECTION-CONTENT", fn, "root: directory writer gets the layout's entries and the archive's internal compression", ok_dir and ok_comp,
+                              "arguments: %s" % ", ".join(tstr(x)[:50] for x in args), e.loc()))
+            if not w.sections["root"]:
+                obs.append(Ob("R-SECTION-CONTENT", fn, "root: directory writer call", False, "no directory-writer call whose result is written as the leaf section", loc))
+            # metadata
+            mw = [(e, k) for (e, k, b, a) in w.sections["meta"]]
+            datas = [e for e, k in mw if e.d["fn"] in WRITE_ALL]
+            ok_one = len(datas) == 1
+            ok_json = ok_comp_m = False
+            if ok_one:
+                e = datas[0]
+                buf = _strip(e.d["args"][1]) if len(e.d["args"]) > 1 else None
+                ok_json = is_call(buf, lambda s: s.startswith("serde_json::ser::to_vec")) and buf[2] and _strip(buf[2][0]) == ("f", me, "meta_data")
+                recv = _strip(e.d["args"][0])
+                ok_comp_m = is_call(recv, lambda s: s in factories) and ("f", me, "internal_compression") in [_strip(x) for x in recv[2]] and V("param:" + w.Sname) in [_strip(x) for x in recv[2]]
+            obs.append(Ob("R-SECTION-CONTENT", fn, "meta: exactly one write of serde_json(self.meta_data) through compress(self.internal_compression, output)", ok_one and ok_json and ok_comp_m,
+                          "%d data write(s) through the metadata compressor%s" % (len(datas), "" if not ok_one else "; buffer %s; compressor %s" % ("ok" if ok_json else "NOT the serialised metadata", "ok" if ok_comp_m else "NOT compress(self.internal_compression, output)")),
+                          datas[0].loc() if datas else loc))
+            fins = [e for e, k in mw if k & {"flush", "close"} and (not datas or e.seq > datas[-1].seq)]
+            obs.append(Ob("R-SECTION-CONTENT", fn, "meta: the compressor is finished after the write", bool(fins), "%d finishing call(s) after the data write" % len(fins), fins[0].loc() if fins else loc))
+    return obs
+
+
+def _strip(t):
+    while isinstance(t, tuple) and t and t[0] in ("mut", "ref", "cast") and len(t) > 1:
+        t = t[1] if t[0] != "cast" else t[2]
+    return t
+
+
+def _base(t):
+    """strip slicing/borrowing views: `&x[0..]`, `x.as_slice()`"""
+    t = _strip(t)
+    while isinstance(t, tuple) and t:
+        if t[0] == "idx":
+            t = _strip(t[1])
+        elif t[0] == "call" and t[1].endswith(("::as_slice", "::deref", "::as_ref", "::index")) and t[2]:
+            t = _strip(t[2][0])
+        else:
+            break
+    return t
+
+
+def is_call(t, pred):
+    return isinstance(t, tuple) and t and t[0] == "call" and pred(t[1])
 
 
 def _is_hdr_seek(w, e):
